@@ -60,6 +60,11 @@ class Runner:
                 kw = dict(func.keywords)
                 kw.update(kwargs)
                 return self._apply(base, list(func.args) + list(args), kw)
+        if type(func).__name__ == "Compose" and hasattr(func, "first") and hasattr(func, "funcs"):
+            out = self._apply(func.first, args, kwargs)
+            for f in func.funcs:
+                out = self._apply(f, [out], {})
+            return out
         name = getattr(func, "__name__", None)
         if name == "apply" and (getattr(func, "__module__", "") or "").startswith("dask"):
             f, a = args[0], (args[1] if len(args) > 1 else ())
